@@ -39,7 +39,11 @@ def write_evidence(prop, tier, seed, proof, bounded, known_lines, violations, fa
             "checker_cmd": proof["checker_cmd"], "trusted_base": proof["trusted_base"],
             "functions_under_contract": proof["functions"], "by_backend": proof["by_backend"],
             "solver_s": proof["solver_s"], "slowest": proof["slowest"], "canaries": proof.get("canaries"),
-            "undecided": proof.get("undecided", []), "obligation_samples": proof.get("samples", []),
+            "undecided": proof.get("undecided", []), "undecided_count": len(proof.get("undecided", [])),
+            "counting_rule": "obligations = verification conditions this run decided (all of them discharged unless a VIOLATION is "
+                             "reported); undecided ones (solver gave no answer within its budget, or the path / function left the "
+                             "verifier's subset) are listed under `undecided` and carried by the bounded stand-in",
+            "obligation_samples": proof.get("samples", []),
             "failed_obligations": [o["name"] for o in proof["failed"]],
             "explanation": proof.get("explanation", ""),
         })
